@@ -97,6 +97,17 @@ pub fn exercise(l: &mut Local, m: &mut Meter, tz: TimeZoneRef<'_>, zone_bytes: u
         }
         let _ = measured(l, m, "DateTime::from_total_nanoseconds", zone_bytes, what, || facade::dt_from_total_ns(u as i128 * 1_000_000_007 + 5, tz));
     }
+    // what was accepted is read back: the getters and the Debug text of every part (a value that should have been
+    // refused, e.g. a designation with an octet that is not ASCII, fails here and not in the call that accepted it)
+    for t in tz.local_time_types().iter().take(8).chain(tz.local_time_types().iter().rev().take(2)) {
+        let _ = measured(l, m, "LocalTimeType getters and Debug", 256, what, || (t.time_zone_designation().len(), t.ut_offset(), t.is_dst(), format!("{:?}", t).len()));
+    }
+    if let Some(r) = tz.extra_rule() {
+        let _ = measured(l, m, "TransitionRule Debug", 1024, what, || format!("{:?}", r).len());
+    }
+    if tr.len() <= 64 && tz.local_time_types().len() <= 16 && tz.leap_seconds().len() <= 64 {
+        let _ = measured(l, m, "TimeZoneRef Debug", zone_bytes * 64 + 8192, what, || format!("{:?}", tz).len());
+    }
     // searches: extreme years, dates around transitions, second 60; result list is bounded by the table length
     let result_budget = zone_bytes + 128 * (tr.len() + 8);
     let mut dates: Vec<(i32, u8, u8, u8, u8, u8)> = vec![];
@@ -116,6 +127,9 @@ pub fn exercise(l: &mut Local, m: &mut Meter, tz: TimeZoneRef<'_>, zone_bytes: u
     dates.push((2024, 13, 1, 0, 0, 0));
     for (y, mo, d, h, mi, s) in dates {
         let _ = measured(l, m, "DateTime::find", result_budget, what, || facade::find(y, mo, d, h, mi, s, 7, tz).map(|l| l.unique().is_some()));
+        if y == 2024 {
+            let _ = measured(l, m, "DateTime::find + Debug", result_budget * 8 + 4096, what, || facade::find(y, mo, d, h, mi, s, 7, tz).map(|l| format!("{:?}", l).len()));
+        }
         let mut buf = [None; 3];
         let _ = measured(l, m, "DateTime::find_n", zone_bytes, what, || facade::find_n(&mut buf, y, mo, d, h, mi, s, 7, tz).map(|l| l.count()));
     }
@@ -167,6 +181,19 @@ fn constructors(l: &mut Local, m: &mut Meter, rng: &mut Rng) {
             }
         }
         let _ = LocalTimeType::with_ut_offset(o);
+    }
+    // designations with any octet value at any position, lengths 2..=8; what is accepted is read back
+    for _ in 0..64 {
+        let n = rng.range(2, 8) as usize;
+        let mut d: Vec<u8> = (0..n).map(|_| *rng.pick(b"ABCxyz019+-")).collect();
+        let k = rng.below(n as u64) as usize;
+        d[k] = rng.next() as u8;
+        if d[k] >= 0x80 {
+            l.class("designation_octet_above_ascii");
+        }
+        if let Ok(t) = measured(l, m, "LocalTimeType::new", 16, &what, || LocalTimeType::new(3600, false, Some(&d))) {
+            let _ = measured(l, m, "LocalTimeType getters and Debug", 256, &what, || (t.time_zone_designation().len(), format!("{:?}", t).len()));
+        }
     }
     let mut days: Vec<RuleDay> = vec![];
     for v in [0u16, 1, 59, 60, 365, 366, u16::MAX] {
@@ -366,7 +393,7 @@ fn mutate_file(good: &[u8], rng: &mut Rng, l: &mut Local) -> Vec<u8> {
             // designation bytes
             if o[4] > o[3] {
                 let p = o[3] + rng.below((o[4] - o[3]) as u64) as usize;
-                b[p] = *rng.pick(&[0u8, b'A', b' ', 0xff, b'+']);
+                b[p] = if rng.chance(1, 2) { *rng.pick(&[0u8, b'A', b' ', 0xff, b'+']) } else { rng.next() as u8 };
                 l.class("designation_byte");
             }
         }
@@ -397,7 +424,7 @@ pub fn run(ctx: &Ctx) -> Report {
     rep.required_classes = vec![
         "tz_string_number_at_an_integer_width_limit",
         "truncation_at_every_length",
-        "hostile_header_count",
+        "hostile_header_count", "designation_octet_above_ascii",
         "extreme_transition_time",
         "ttinfo_byte",
         "index_or_indicator_byte",
